@@ -11,6 +11,7 @@ CONSTANTS K,          \* maximal number of operators in the outer chain
           SubOps,     \* operator spellings used inside parentheses
           Lits,       \* integer literals that may stand as operands ("-2" is written - 2 and parsed to one literal)
           Long,       \* TRUE: long chains - the case carries the operator sequence instead of the reference tree (judged locally)
+          CallArgs,   \* TRUE: the special operands are calls whose argument is a parenthesised group: f((a + b)), f(v, (a + b))
           Nest        \* nesting depths of a parenthesised operand: 2 = ((...)) directly doubled
 
 VARIABLES chain, tree, special
@@ -20,7 +21,8 @@ CaseFile == IOEnv.CASE_FILE
 
 SubChains == {<<>>} \cup {<<o>> : o \in SubOps} \cup {<<o1, o2>> : o1 \in SubOps, o2 \in SubOps}
 Operands(i) == {[f |-> "ref", i |-> i]} \cup {[f |-> "lit", i |-> i, v |-> v] : v \in Lits}
-               \cup (IF MaxSpecial = 0 THEN {} ELSE
+               \cup (IF MaxSpecial = 0 THEN {} ELSE IF CallArgs THEN
+                     {[f |-> g, i |-> i, sub |-> s, d |-> d] : g \in {"fpar", "fpar2"}, s \in SubChains, d \in Nest} ELSE
                      {[f |-> "neg", i |-> i], [f |-> "pos", i |-> i]}
                      \cup {[f |-> "par", i |-> i, sub |-> s, d |-> d] : s \in SubChains, d \in Nest}
                      \cup {[f |-> "npar", i |-> i, sub |-> s, d |-> d] : s \in SubChains, d \in Nest})
@@ -30,6 +32,15 @@ EmitLong(c) == CSVWrite("%1$s", <<ToJson([toks |-> ChainToks(c), ops |-> [j \in 
                                           nops |-> Len(c.items), special |-> 0, long |-> TRUE])>>, CaseFile)
 Emit(c) == IF Long THEN EmitLong(c) ELSE CSVWrite("%1$s", <<ToJson([toks |-> ChainToks(c), want |-> RefTree(c),
                                       nops |-> Len(c.items), special |-> Len(SelectSeq(<<c.first>> \o [j \in 1..Len(c.items) |-> c.items[j].x], IsSpecial))])>>, CaseFile)
+
+\* UNIFORM chains of thousands of operands ( a AND a AND ... ): far beyond what a JSON reader nests, so the driver reports the
+\* left spine run-length encoded (harness/suite_c03.go) and the judge checks that every right operand is a leaf.  With the
+\* operand now() and a last operand in parentheses: what a parser counts per call or per group must not add up.
+UniformSizes == {255, 256, 257, 258, 999, 1000, 1001, 1002, 1025, 2049, 4097}
+UniformStep == /\ chain.items = <<>> /\ chain.first = [f |-> "ref", i |-> 0]
+               /\ \A n \in UniformSizes : \A o \in {"AND", "OR", "+", "*", "="} : \A operand \in {"a", "now()"} : \A tail \in {"", "(a)", "f(a)"} :
+                    CSVWrite("%1$s", <<ToJson([uniform |-> TRUE, op |-> o, n |-> n, operand |-> operand, tail |-> tail, nops |-> n - 1, special |-> 0])>>, CaseFile)
+               /\ UNCHANGED vars
 
 Init == \E x \in Operands(0) :
           /\ chain = [first |-> x, items |-> <<>>]
@@ -45,7 +56,7 @@ Step == /\ Len(chain.items) < K
                   /\ tree' = IF Long THEN tree ELSE Insert(tree, o, Atom(x, IsRegexOp(o), TRUE))
                   /\ special' = special + (IF IsSpecial(x) THEN 1 ELSE 0)
                   /\ Emit(c2)
-Next == Step
+Next == IF Long /\ K = 0 THEN UniformStep ELSE Step
 Spec == Init /\ [][Next]_vars
 
 \* M: the code-shaped insertion builds exactly the tree the property demands
